@@ -421,7 +421,13 @@ def norm_8(ctx, rep):
     # does the dispatch itself filter on the leaf type?
     vl = prog.func('parso/normalizer.py', 'Normalizer.visit_leaf')
     cfg = ctx.cfg(vl)
-    loop = [n for n in cfg.nodes if n.kind == 'iter' and '_rule_value_instances' in norm(n.ast)]
+    srcs = {'_rule_value_instances'}
+    for n in walk_own(vl.node):
+        if isinstance(n, ast.Assign) and '_rule_value_instances' in norm(n.value):
+            srcs |= {t.id for t in n.targets if isinstance(t, ast.Name)}
+    loop = [n for n in cfg.nodes if n.kind == 'iter' and any(
+        isinstance(x, (ast.Name, ast.Attribute)) and (getattr(x, 'id', None) in srcs or getattr(x, 'attr', None) in srcs)
+        for x in ast.walk(n.ast))]
     if not loop:
         raise AnalysisError('anchor vanished: value-rule dispatch in Normalizer.visit_leaf')
     leafp = vl.params()[1]
